@@ -76,7 +76,7 @@ def gen_case(rng, prop='C19'):
     case = {'spec': spec, 'kind': kind, 'seed': rng.randrange(1 << 30)}
     names = spec_names(spec)
     if rng.random() < 0.4:
-        npos = rng.randint(0, min(len(names) + (1 if spec['var'] else 0), 4))
+        npos = rng.randint(0, min(len(names) + 1, 5))     # up to one positional too many
         pa = [rng.choice(VALS) for _ in range(npos)]
         pk = {}
         for n in names + [x[0] for x in spec['kwonly']] + (['zz'] if spec['kw'] else []):
